@@ -14,6 +14,8 @@ import (
 	"go/token"
 	"os"
 	"path/filepath"
+	"reflect"
+	"runtime"
 	"sort"
 	"strconv"
 	"strings"
@@ -22,9 +24,29 @@ import (
 var repo, outdir string
 var digests = map[string]string{}
 
+// genFailure aborts one generator; the others still run (see runGen).
+type genFailure struct{ msg string }
+
 func fail(format string, a ...interface{}) {
-	fmt.Fprintf(os.Stderr, "gentables: "+format+"\n", a...)
-	os.Exit(3)
+	panic(genFailure{fmt.Sprintf(format, a...)})
+}
+
+var failures []string
+
+// runGen runs one generator; a failure is recorded as "FAILED <source file of the generator> <message>".
+func runGen(g func()) {
+	pc := reflect.ValueOf(g).Pointer()
+	file, _ := runtime.FuncForPC(pc).FileLine(pc)
+	defer func() {
+		if p := recover(); p != nil {
+			msg := fmt.Sprint(p)
+			if gf, ok := p.(genFailure); ok {
+				msg = gf.msg
+			}
+			failures = append(failures, fmt.Sprintf("FAILED %s %s", filepath.Base(file), msg))
+		}
+	}()
+	g()
 }
 
 func parseFile(rel string) (*token.FileSet, *ast.File) {
@@ -335,7 +357,13 @@ func main() {
 	if err := os.MkdirAll(outdir, 0o755); err != nil {
 		fail("%v", err)
 	}
-	genSh()
+	runGen(genSh)
 	genExtra()
-	genDigest()
+	runGen(genDigest)
+	if len(failures) > 0 {
+		for _, f := range failures {
+			fmt.Fprintln(os.Stderr, "gentables: "+f)
+		}
+		os.Exit(3)
+	}
 }
